@@ -1757,6 +1757,14 @@ impl DhtNetworkManager {
         peer_id: &PeerId,
         operation: DhtNetworkOperation,
     ) -> Result<DhtNetworkResult> {
+        // Once stop() has cancelled the shutdown token, no further request may leave
+        // this node: operations still in flight fail fast instead of sending more RPCs.
+        if self.shutdown.is_cancelled() {
+            return Err(P2PError::Network(NetworkError::ProtocolError(
+                "DHT network manager is shut down".into(),
+            )));
+        }
+
         // Sweep stale entries left by dropped futures before adding a new one
         self.sweep_expired_operations();
 
